@@ -38,7 +38,7 @@ RULE = ("each run draws a body length (dense around 0, 1, 2^14+-2, 2^15, 2^16+-2
         "sizes and ciphertext cuts, and serves it over BOTH TLS backends. distinct = distinct "
         "(length, reader, buffer, cut-signature); non-trivial = body >= 1 byte and the reader or "
         "the network was not the default")
-PROBES = ["stray_bytes_while_handler_pending", "handler_finishes_after_request_timeout", "file_with_byte_order_mark", "status_21_to_29", "backpressure_pause_writing", "body_ge_16k", "body_ge_64k", "body_ge_6MiB", "half_closing_reader", "nauyaca_client_as_reader", "slow_reader", "bursty_reader",
+PROBES = ["request_in_two_records_with_the_handshake", "stray_bytes_while_handler_pending", "handler_finishes_after_request_timeout", "file_with_byte_order_mark", "status_21_to_29", "backpressure_pause_writing", "body_ge_16k", "body_ge_64k", "body_ge_6MiB", "half_closing_reader", "nauyaca_client_as_reader", "slow_reader", "bursty_reader",
           "ciphertext_cut", "static_file", "start_server", "very_slow_reader_over_30s"]
 COMPONENTS = {
     "real": ["nauyaca.server.protocol._send_response", "nauyaca.server.tls_protocol (TLS pump)",
@@ -64,7 +64,11 @@ def make_body(ch, n):
         s = (unit * (n // len(unit.encode()) + 1))
         b = s.encode()[:n]
         s = b.decode("utf-8", "ignore")
-        return s, s.encode(), "text/plain; charset=utf-8"
+        return s, s.encode(), ch.pick("textmeta", ["text/plain; charset=utf-8", "text/plain",
+                                                   "text/plain; charset=iso-8859-1",
+                                                   "text/gemini; charset=utf-16; lang=en",
+                                                   "text/plain; charset=x-unknown-9"],
+                                      [4, 2, 1, 1, 1])
     if kind == 2:
         s = ("line %d of text\n" * 1) % 7
         s = (s * (n // len(s) + 1))[:n]
@@ -162,6 +166,8 @@ def serve_once(ch, backend, cfg, scratch):
         elif cfg["reader"] == "bursty":
             kw = dict(read_pause_until=cfg["pause_until"])
         pscript = [("send", url.encode() + b"\r\n")]
+        if cfg.get("split_request"):
+            pscript = [("send", url.encode()), ("send", b"\r\n")]
         if cfg["idle_before_request"]:
             pscript = [("sleep", cfg["idle_before_request"])] + pscript
         if cfg.get("stray"):
@@ -171,7 +177,8 @@ def serve_once(ch, backend, cfg, scratch):
             # the reader says goodbye (close_notify, FIN) right behind its request and
             # then only reads
             pscript.append(("close",))
-        peer = RawPeer(net, ep, pscript, tls_ctx=fx.client_ctx(), name="reader", **kw)
+        peer = RawPeer(net, ep, pscript, tls_ctx=fx.client_ctx(), name="reader",
+                       coalesce_first=bool(cfg.get("split_request")), **kw)
         t_end = cfg["deadline"]
         while net.now < t_end:
             await asyncio.sleep(0.25)
@@ -228,6 +235,9 @@ def run_one(ch):
     reader = ch.pick("reader", ["eager", "slow", "bursty", "client"], [5, 3, 2, 1])
     if reader == "client" and n > (2 << 20):
         reader = "eager"
+    if reader == "client" and "charset=" in body[2] and "utf-8" not in body[2]:
+        # the nauyaca client decodes by the declared charset: only honest labels for it
+        body = (body[0], body[1], "text/plain; charset=utf-8")
     cap = ch.pick("cap", [65536, 1024, 4096, 16384, 262144, 1048576])
     very_slow = False
     cfg = {"body": body, "source": source, "reader": reader, "cap_s2c": cap,
@@ -263,6 +273,10 @@ def run_one(ch):
     # sends its request to a 4 s handler: the complete request is still answered with the body
     cfg["hdelay"] = 0.01
     cfg["idle_before_request"] = 0.0
+    if reader != "client" and ch.chance("split_request", 0.15):
+        # URL and CRLF as two TLS records in the flight of the client's Finished
+        cfg["split_request"] = True
+        res.stats["request_in_two_records_with_the_handshake"] += 1
     if source == "handler" and cfg["async_handler"] and reader != "client":
         slow = ch.choose("slowhandler", 3, [30, 1, 1])
         if slow == 1:
